@@ -7,7 +7,7 @@ use humphrey_ws::async_app::{AsyncSender, AsyncStream, AsyncWebsocketApp};
 use humphrey_ws::handler::async_websocket_handler;
 use humphrey_ws::message::Message;
 use humphrey_ws::ping::Heartbeat;
-use humphrey_ws::verif_trace::digest_parts;
+use humphrey_ws::verif_trace::{digest_parts, now_ns};
 use std::io::{Read, Write};
 use std::net::{SocketAddr, TcpStream};
 use std::os::fd::FromRawFd;
@@ -26,16 +26,15 @@ struct HandlerEvent {
     thread: String,
     sseq: u64,
     eseq: u64,
-    start_us: u128,
-    end_us: u128,
+    start_ns: u128,
+    end_ns: u128,
 }
 
 struct Shared {
-    t0: Instant,
     seq: AtomicU64,
     gid: AtomicU64,
     events: Mutex<Vec<HandlerEvent>>,
-    sends: Mutex<Vec<String>>,
+    sends: Mutex<Vec<(String, u128)>>,
     sender: Mutex<Option<AsyncSender>>,
     /// address of the current connection of client slot k (set by the client before it sends anything)
     slots: Mutex<Vec<Option<SocketAddr>>>,
@@ -47,27 +46,29 @@ struct Shared {
 
 impl Shared {
     fn enter(&self) -> (u64, u128) {
-        (self.seq.fetch_add(1, Ordering::SeqCst), self.t0.elapsed().as_micros())
+        (self.seq.fetch_add(1, Ordering::SeqCst), now_ns())
     }
     fn leave(&self, kind: char, addr: SocketAddr, digest: String, started: (u64, u128)) {
         let eseq = self.seq.fetch_add(1, Ordering::SeqCst);
-        let end_us = self.t0.elapsed().as_micros();
+        let end_ns = now_ns();
         let thread = std::thread::current().name().unwrap_or("?").to_string();
-        self.events.lock().unwrap().push(HandlerEvent { kind, addr, digest, thread, sseq: started.0, eseq, start_us: started.1, end_us });
+        self.events.lock().unwrap().push(HandlerEvent { kind, addr, digest, thread, sseq: started.0, eseq, start_ns: started.1, end_ns });
     }
-    fn server_message(&self, kind: char, target: Option<SocketAddr>, origin: &str) -> Message {
+    /// builds a server-side message; `send` is called with it and the time at which `send` returned is recorded
+    fn server_send(&self, kind: char, target: Option<SocketAddr>, origin: &str, send: impl FnOnce(Message)) {
         let gid = self.gid.fetch_add(1, Ordering::SeqCst);
         let payload = format!("S|{}|{}|{}", kind, gid, origin);
         let d = digest_parts(true, payload.as_bytes());
-        self.sends.lock().unwrap().push(format!(
+        let entry = format!(
             "{},{},{},{},{}",
             gid,
             kind,
             target.map(|a| a.to_string()).unwrap_or_else(|| "-".into()),
             d,
             origin
-        ));
-        Message::new(payload)
+        );
+        send(Message::new(payload));
+        self.sends.lock().unwrap().push((entry, now_ns()));
     }
 }
 
@@ -77,10 +78,10 @@ fn on_connect(stream: AsyncStream, st: Arc<Shared>) {
         std::thread::sleep(Duration::from_millis(st.connect_sleep_ms));
     }
     if st.greet {
-        stream.send(st.server_message('u', Some(stream.peer_addr()), "hc"));
+        st.server_send('u', Some(stream.peer_addr()), "hc", |m| stream.send(m));
     }
     if st.joined {
-        stream.broadcast(st.server_message('b', None, "hc"));
+        st.server_send('b', None, "hc", |m| stream.broadcast(m));
     }
     st.leave('c', stream.peer_addr(), "-".into(), started);
 }
@@ -88,7 +89,7 @@ fn on_connect(stream: AsyncStream, st: Arc<Shared>) {
 fn on_disconnect(stream: AsyncStream, st: Arc<Shared>) {
     let started = st.enter();
     if st.left {
-        stream.broadcast(st.server_message('b', None, "hx"));
+        st.server_send('b', None, "hx", |m| stream.broadcast(m));
     }
     st.leave('x', stream.peer_addr(), "-".into(), started);
 }
@@ -104,20 +105,20 @@ fn on_message(stream: AsyncStream, message: Message, st: Arc<Shared>) {
     let unicast_to = |k: usize| {
         let target = st.slots.lock().unwrap().get(k).copied().flatten();
         if let Some(t) = target {
-            let m = st.server_message('u', Some(t), "hm");
-            if let Some(s) = st.sender.lock().unwrap().as_ref() {
-                s.send(t, m);
+            let sender = st.sender.lock().unwrap();
+            if let Some(s) = sender.as_ref() {
+                st.server_send('u', Some(t), "hm", |m| s.send(t, m));
             }
         }
     };
     match cmd.chars().next() {
-        Some('e') => stream.send(st.server_message('u', Some(stream.peer_addr()), "hm")),
-        Some('a') => stream.broadcast(st.server_message('b', None, "hm")),
+        Some('e') => st.server_send('u', Some(stream.peer_addr()), "hm", |m| stream.send(m)),
+        Some('a') => st.server_send('b', None, "hm", |m| stream.broadcast(m)),
         Some('u') => unicast_to(cmd[1..].parse().unwrap_or(0)),
         Some('z') => std::thread::sleep(Duration::from_millis(5)),
         Some('m') => {
-            stream.send(st.server_message('u', Some(stream.peer_addr()), "hm"));
-            stream.broadcast(st.server_message('b', None, "hm"));
+            st.server_send('u', Some(stream.peer_addr()), "hm", |m| stream.send(m));
+            st.server_send('b', None, "hm", |m| stream.broadcast(m));
             unicast_to(0);
         }
         _ => {}
@@ -153,7 +154,11 @@ struct ConnRecord {
     /// 'q' sent a Close frame, 'r' closed the socket without one, 'v' vanished (socket open, silent), 'a' alive at the end,
     /// 't' reset (RST)
     end: char,
-    got_eof: Arc<AtomicBool>,
+    t_open: u128,
+    t_last_write: u128,
+    pending_tail: Option<Vec<u8>>,
+    /// 0 still open / told to stop, 1 clean EOF, 2 read error (reset)
+    got_eof: Arc<AtomicU64>,
     got_close: Arc<AtomicBool>,
     garbage: Arc<AtomicBool>,
 }
@@ -178,19 +183,19 @@ fn parked(c: Conn, keep: bool) -> Parked {
     Parked { rec: c.rec, keep: if keep { Some(c.write) } else { None }, stop: c.stop, reader: c.reader }
 }
 
-fn read_exact_stop(s: &mut TcpStream, buf: &mut [u8], stop: &AtomicBool) -> Result<(), bool> {
-    // Err(true) = EOF / error, Err(false) = told to stop
+fn read_exact_stop(s: &mut TcpStream, buf: &mut [u8], stop: &AtomicBool) -> Result<(), u64> {
+    // Err(1) = clean EOF, Err(2) = read error, Err(0) = told to stop
     let mut got = 0;
     while got < buf.len() {
         match s.read(&mut buf[got..]) {
-            Ok(0) => return Err(true),
+            Ok(0) => return Err(1),
             Ok(n) => got += n,
             Err(ref e) if e.kind() == std::io::ErrorKind::WouldBlock || e.kind() == std::io::ErrorKind::TimedOut => {
                 if stop.load(Ordering::SeqCst) {
-                    return Err(false);
+                    return Err(0);
                 }
             }
-            Err(_) => return Err(true),
+            Err(_) => return Err(2),
         }
     }
     Ok(())
@@ -202,7 +207,7 @@ fn reader_loop(
     recv: Arc<Mutex<Vec<String>>>,
     silent: Arc<AtomicBool>,
     stop: Arc<AtomicBool>,
-    got_eof: Arc<AtomicBool>,
+    got_eof: Arc<AtomicU64>,
     got_close: Arc<AtomicBool>,
     garbage: Arc<AtomicBool>,
 ) {
@@ -221,13 +226,15 @@ fn reader_loop(
         let mut len = (h[1] & 0x7f) as u64;
         if len == 126 {
             let mut b = [0u8; 2];
-            if read_exact_stop(&mut s, &mut b, &stop).is_err() {
+            if let Err(eof) = read_exact_stop(&mut s, &mut b, &stop) {
+                got_eof.store(if eof == 0 { 0 } else { 2 }, Ordering::SeqCst);
                 return;
             }
             len = u16::from_be_bytes(b) as u64;
         } else if len == 127 {
             let mut b = [0u8; 8];
-            if read_exact_stop(&mut s, &mut b, &stop).is_err() {
+            if let Err(eof) = read_exact_stop(&mut s, &mut b, &stop) {
+                got_eof.store(if eof == 0 { 0 } else { 2 }, Ordering::SeqCst);
                 return;
             }
             len = u64::from_be_bytes(b);
@@ -238,7 +245,7 @@ fn reader_loop(
         }
         let mut payload = vec![0u8; len as usize];
         if let Err(eof) = read_exact_stop(&mut s, &mut payload, &stop) {
-            got_eof.store(eof, Ordering::SeqCst);
+            got_eof.store(if eof == 0 { 0 } else { 2 }, Ordering::SeqCst);
             return;
         }
         match opcode {
@@ -336,7 +343,7 @@ fn ws_connect(port: u16, local_port: u16, client: usize) -> Option<Conn> {
     let recv = Arc::new(Mutex::new(Vec::new()));
     let silent = Arc::new(AtomicBool::new(false));
     let stop = Arc::new(AtomicBool::new(false));
-    let got_eof = Arc::new(AtomicBool::new(false));
+    let got_eof = Arc::new(AtomicU64::new(0));
     let got_close = Arc::new(AtomicBool::new(false));
     let garbage = Arc::new(AtomicBool::new(false));
     let reader = {
@@ -349,7 +356,19 @@ fn ws_connect(port: u16, local_port: u16, client: usize) -> Option<Conn> {
         silent,
         stop,
         reader: Some(reader),
-        rec: ConnRecord { client, local, sent: Vec::new(), recv, end: 'a', got_eof, got_close, garbage },
+        rec: ConnRecord {
+            client,
+            local,
+            sent: Vec::new(),
+            recv,
+            end: 'a',
+            t_open: now_ns(),
+            t_last_write: 0,
+            pending_tail: None,
+            got_eof,
+            got_close,
+            garbage,
+        },
     })
 }
 
@@ -444,6 +463,29 @@ fn run_client(client: usize, script: &str, port: u16, shared: Arc<Shared>, live:
                     for w in writes {
                         let _ = c.write.lock().unwrap().write_all(&w);
                     }
+                    c.rec.t_last_write = now_ns();
+                }
+            }
+            // H<cmd>:<len>: first frame (not final) of a two-frame message; h: its final frame
+            "H" => {
+                if let Some(c) = cur.as_mut() {
+                    let parts: Vec<&str> = arg.split(':').collect();
+                    let cmd = parts.first().copied().unwrap_or("n");
+                    let len: usize = parts.get(1).and_then(|x| x.parse().ok()).unwrap_or(8).max(8);
+                    let p = payload_for(cmd, client, seq, len, false);
+                    seq += 1;
+                    c.rec.sent.push(digest_parts(true, &p));
+                    let (a, b) = p.split_at(p.len() / 2);
+                    let _ = c.write.lock().unwrap().write_all(&mask_frame(false, 1, a, key));
+                    c.rec.pending_tail = Some(b.to_vec());
+                }
+            }
+            "h" => {
+                if let Some(c) = cur.as_mut() {
+                    if let Some(b) = c.rec.pending_tail.take() {
+                        let _ = c.write.lock().unwrap().write_all(&mask_frame(true, 0, &b, key));
+                        c.rec.t_last_write = now_ns();
+                    }
                 }
             }
             "P" => {
@@ -455,9 +497,10 @@ fn run_client(client: usize, script: &str, port: u16, shared: Arc<Shared>, live:
             "Q" => {
                 if let Some(mut c) = cur.take() {
                     let _ = c.write.lock().unwrap().write_all(&mask_frame(true, 8, b"", key));
+                    c.rec.t_last_write = now_ns();
                     c.rec.end = 'q';
                     let t = Instant::now();
-                    while !c.rec.got_eof.load(Ordering::SeqCst) && t.elapsed() < Duration::from_millis(300) {
+                    while c.rec.got_eof.load(Ordering::SeqCst) == 0 && t.elapsed() < Duration::from_millis(300) {
                         std::thread::sleep(Duration::from_millis(2));
                     }
                     c.stop.store(true, Ordering::SeqCst);
@@ -514,18 +557,18 @@ fn run_external(script: &str, shared: Arc<Shared>) {
         match op {
             "d" => std::thread::sleep(Duration::from_millis(arg.parse().unwrap_or(1))),
             "b" => {
-                let m = shared.server_message('b', None, "x");
-                if let Some(s) = shared.sender.lock().unwrap().as_ref() {
-                    s.broadcast(m);
+                let sender = shared.sender.lock().unwrap();
+                if let Some(s) = sender.as_ref() {
+                    shared.server_send('b', None, "x", |m| s.broadcast(m));
                 }
             }
             "u" => {
                 let k: usize = arg.parse().unwrap_or(0);
                 let target = shared.slots.lock().unwrap().get(k).copied().flatten();
                 if let Some(t) = target {
-                    let m = shared.server_message('u', Some(t), "x");
-                    if let Some(s) = shared.sender.lock().unwrap().as_ref() {
-                        s.send(t, m);
+                    let sender = shared.sender.lock().unwrap();
+                    if let Some(s) = sender.as_ref() {
+                        shared.server_send('u', Some(t), "x", |m| s.send(t, m));
                     }
                 }
             }
@@ -554,7 +597,6 @@ pub fn dispatch(name: &str, args: &[&str]) -> Option<String> {
             let ext_script = args[6].to_string();
             let scripts: Vec<String> = args[7..].iter().map(|s| s.to_string()).collect();
             let shared_value = Shared {
-                t0: Instant::now(),
                 seq: AtomicU64::new(0),
                 gid: AtomicU64::new(0),
                 events: Mutex::new(Vec::new()),
@@ -634,6 +676,7 @@ pub fn dispatch(name: &str, args: &[&str]) -> Option<String> {
             std::thread::sleep(Duration::from_millis(settle));
             // shutdown
             let t_sig = Instant::now();
+            let sig_ns = now_ns();
             sd_tx.send(()).ok();
             let returned = done_rx.recv_timeout(Duration::from_secs(4)).ok().map(|_| t_sig.elapsed().as_millis());
             app_sd_tx.send(()).ok();
@@ -662,31 +705,35 @@ pub fn dispatch(name: &str, args: &[&str]) -> Option<String> {
             let ev = shared.events.lock().unwrap();
             let e_s: Vec<String> = ev
                 .iter()
-                .map(|e| format!("{},{},{},{},{},{},{},{}", e.kind, e.addr, e.digest, e.thread, e.sseq, e.eseq, e.start_us, e.end_us))
+                .map(|e| format!("{},{},{},{},{},{},{},{}", e.kind, e.addr, e.digest, e.thread, e.sseq, e.eseq, e.start_ns, e.end_ns))
                 .collect();
             let c_s: Vec<String> = conns
                 .iter()
                 .map(|c| {
                     format!(
-                        "{},{},{},{}{}{},{},{}",
+                        "{},{},{},{}{}{},{},{},{},{}",
                         c.rec.client,
                         c.rec.local,
                         c.rec.end,
-                        c.rec.got_eof.load(Ordering::SeqCst) as u8,
+                        c.rec.got_eof.load(Ordering::SeqCst),
                         c.rec.got_close.load(Ordering::SeqCst) as u8,
                         c.rec.garbage.load(Ordering::SeqCst) as u8,
                         c.rec.sent.join("+"),
-                        c.rec.recv.lock().unwrap().join("+")
+                        c.rec.recv.lock().unwrap().join("+"),
+                        c.rec.t_open,
+                        c.rec.t_last_write
                     )
                 })
                 .collect();
             let dash = |v: Vec<String>| if v.is_empty() { "-".to_string() } else { v.join(";") };
+            let sends: Vec<String> = shared.sends.lock().unwrap().iter().map(|(e, t)| format!("{},{}", e, t)).collect();
             Some(format!(
-                "ok returned={} H={} E={} S={} C={}",
+                "ok returned={} sig={} H={} E={} S={} C={}",
                 returned.map(|m| m.to_string()).unwrap_or_else(|| "never".into()),
+                sig_ns,
                 dash(hook),
                 dash(e_s),
-                dash(shared.sends.lock().unwrap().clone()),
+                dash(sends),
                 dash(c_s)
             ))
         }
